@@ -36,7 +36,7 @@ type call struct {
 // rec is shared by the mixins of one plugin object.
 type rec struct {
 	calls   []call
-	failAll bool
+	failErr error // nil: handlers succeed
 	confRet api.EventMask
 	confErr error
 	confArg [3]string
@@ -44,10 +44,19 @@ type rec struct {
 
 var errHandler = errors.New("handler error 4711")
 
+// the handler errors tried: nothing, a plain error, and errors of the handler's OWN making that wrap
+// a context error (its backend call timed out / a helper was cancelled) while the request itself is live
+var handlerErrs = []error{
+	nil,
+	errHandler,
+	fmt.Errorf("backend call: %w", context.DeadlineExceeded),
+	fmt.Errorf("helper: %w", context.Canceled),
+}
+
 func (r *rec) ev(m string, pod *api.PodSandbox, ctr *api.Container) error {
 	r.calls = append(r.calls, call{method: m, pod: pod, ctr: ctr})
-	if r.failAll {
-		return errHandler
+	if r.failErr != nil {
+		return r.failErr
 	}
 	return nil
 }
@@ -108,8 +117,8 @@ type mUpdateContainer struct{ r *rec }
 
 func (m mUpdateContainer) UpdateContainer(_ context.Context, p *api.PodSandbox, c *api.Container, lr *api.LinuxResources) ([]*api.ContainerUpdate, error) {
 	m.r.calls = append(m.r.calls, call{method: "UpdateContainer", pod: p, ctr: c, res: [2]*api.LinuxResources{lr}})
-	if m.r.failAll {
-		return nil, errHandler
+	if m.r.failErr != nil {
+		return nil, m.r.failErr
 	}
 	return retUpdateU, nil
 }
@@ -139,8 +148,8 @@ type mUpdatePod struct{ r *rec }
 
 func (m mUpdatePod) UpdatePodSandbox(_ context.Context, p *api.PodSandbox, over, lr *api.LinuxResources) error {
 	m.r.calls = append(m.r.calls, call{method: "UpdatePodSandbox", pod: p, res: [2]*api.LinuxResources{over, lr}})
-	if m.r.failAll {
-		return errHandler
+	if m.r.failErr != nil {
+		return m.r.failErr
 	}
 	return nil
 }
@@ -254,8 +263,9 @@ func checkSubscription(t mkType, thorough bool) {
 
 // (2) dispatch
 func checkDispatch(t mkType) {
-	for _, failing := range []bool{false, true} {
-		r := &rec{failAll: failing}
+	for _, herr := range handlerErrs {
+		failing := herr != nil
+		r := &rec{failErr: herr}
 		st, err := stub.New(t.mk(r), stub.WithPluginName("sub"), stub.WithPluginIdx("10"))
 		if err != nil {
 			return
@@ -314,7 +324,7 @@ func checkDispatch(t mkType) {
 				fail("wrong-arguments|"+sfx, "UpdatePodSandbox handler got resources %v / %v", c.res[0], c.res[1])
 			}
 			if failing {
-				if gotErr != errHandler {
+				if gotErr != herr {
 					fail("handler-error-lost|"+sfx, "the %s handler failed but the stub returned %v", name, gotErr)
 				}
 				continue
